@@ -305,6 +305,16 @@ func (p *c20) Exec(t *testing.T, scAny any) Outcome {
 	}
 	failedMsgs := 0
 	keyParts := []string{sc.Label, fmt.Sprint(len(sc.Batches[0]))}
+	// may the client have given the connection up before a later message's turn? Yes when the
+	// script takes the connection or a reply away, and when the RSET that abandons a refused
+	// message is refused as well (the transaction may still be open: §8.3, C04). A refused RSET
+	// after an ACCEPTED message leaves nothing open; what follows is unaffected.
+	connMayBeGone := false
+	for _, ru := range sc.Server.Rules {
+		if ru.Action.Kind != "" && ru.Action.Kind != "reply" {
+			connMayBeGone = true
+		}
+	}
 	for mi, b := range run.Built[0] {
 		st := run.States[0][mi]
 		seg := segs[b.Spec.Token]
@@ -355,6 +365,9 @@ func (p *c20) Exec(t *testing.T, scAny any) Outcome {
 			// the message never reached MAIL: the connection was gone by the time its turn came.
 			// It was not delivered, so it is a failed message and has to say so.
 			failedMsgs++
+			if !connMayBeGone && !illegal {
+				out.violate("C20:unaffected-never-sent", "message %s was never sent (error %q) although nothing had happened to the connection: every reply before its turn was well-formed and no refused message was left half-abandoned", b.Spec.Token, st.ErrText)
+			}
 			if st.Delivered {
 				out.violate("C20:unsent-but-delivered", "message %s never reached the server, yet IsDelivered() is true", b.Spec.Token)
 			}
@@ -375,6 +388,13 @@ func (p *c20) Exec(t *testing.T, scAny any) Outcome {
 		failedMsgs++
 		site := want.step
 		r := want.reply
+		if want.step != "RSET" {
+			for i := range seg.after {
+				if seg.after[i].Verb == "RSET" && seg.after[i].Code >= 400 {
+					connMayBeGone = true
+				}
+			}
+		}
 		if st.SE == nil {
 			out.violate("C20:no-senderror:"+site, "message %s was refused at %s with %d, but Msg.SendError() is %q (no *SendError)", b.Spec.Token, site, r.Code, st.ErrText)
 			continue
